@@ -80,6 +80,8 @@ def impl(case):
         return _wsloop_impl(case)
     if k == 'hs':
         return [_handshake_impl(case)]
+    if k == 'upfr':
+        return _upfr_impl(case)
     if k == 'mask':
         try:
             return ['ok ' + hx(F.WebsocketFrame.apply_mask(bytes.fromhex(case['data']), bytes.fromhex(case['mask'])))]
@@ -183,8 +185,83 @@ def _handshake_impl(case):
     return 'noaccept'
 
 
+_UPFR = {}
+
+
+def _upfr_world():
+    if _UPFR:
+        return _UPFR
+    import logging
+    logging.disable(logging.CRITICAL)
+    from proxy.common.flag import FlagParser
+    from proxy.http.server import HttpWebServerBasePlugin, httpProtocolTypes
+    log = []
+
+    class RecRoute(HttpWebServerBasePlugin):
+        def routes(self):
+            return [(httpProtocolTypes.WEBSOCKET, r'/ws$')]
+
+        def handle_request(self, request):
+            pass
+
+        def on_websocket_message(self, frame):
+            log.append('ok ' + _fields(frame, b''))
+    _UPFR['flags'] = FlagParser.initialize(['--enable-web-server', '--hostname', '127.0.0.1'], threadless=True,
+                                           plugins=[RecRoute])
+    _UPFR['log'] = log
+    return _UPFR
+
+
+def _upfr_segments(case):
+    key = bytes.fromhex(case['key'])
+    req = (b'GET /ws HTTP/1.1\r\nHost: x\r\nUpgrade: websocket\r\nConnection: Upgrade\r\n'
+           b'Sec-WebSocket-Key: ' + key + b'\r\nSec-WebSocket-Version: 13\r\n\r\n')
+    frames = _wsloop_frames(case)
+    k = case['with_req']            # how many frames share the segment of the upgrade request
+    return [req + b''.join(frames[:k])] + ([b''.join(frames[k:])] if frames[k:] else [])
+
+
+def _upfr_impl(case):
+    """Websocket upgrade request and the first frames in ONE segment (the rest in a second one) through the
+    real HttpProtocolHandler.handle_data -> HttpWebServerPlugin: the accept token, then what the route plugin is
+    handed per frame."""
+    import socket
+    from proxy.http.handler import HttpProtocolHandler
+    from proxy.http.connection import HttpClientConnection
+    w = _upfr_world()
+    del w['log'][:]
+    a, b_ = socket.socketpair()
+    out = []
+    try:
+        h = HttpProtocolHandler(HttpClientConnection(a, ('127.0.0.1', 1)), flags=w['flags'])
+        try:
+            for seg in _upfr_segments(case):
+                if h.handle_data(memoryview(seg)):
+                    w['log'].append('teardown')
+                    break
+        except Exception as e:
+            w['log'].append('exc ' + exc_name(e))
+        sent = b''.join(bytes(x) for x in h.work.buffer)
+    finally:
+        a.close()
+        b_.close()
+    acc = 'noaccept'
+    if not sent.startswith(b'HTTP/1.1 101'):
+        acc = 'noupgrade ' + sent.split(b'\r\n', 1)[0].decode('latin1').replace(' ', '_')
+    for line in sent.split(b'\r\n'):
+        if line.lower().startswith(b'sec-websocket-accept:'):
+            acc = 'ok ' + hx(line.split(b':', 1)[1].strip())
+    n = len(case['frames'])
+    log = list(w['log'])[:n]
+    return [acc] + log + ['missing'] * (n - len(log))
+
+
 def model_lines(case):
     k = case['kind']
+    if k == 'upfr':
+        from proxy.http.websocket.frame import WebsocketFrame
+        return ['ws accept %s %s' % (hx(WebsocketFrame.GUID), case['key'] or '-')] + \
+            ['ws parse ' + hx(x) for x in _wsloop_frames(case)]
     if k == 'hs':
         from proxy.http.websocket.frame import WebsocketFrame
         return ['ws accept %s %s' % (hx(WebsocketFrame.GUID), case['key'] or '-')]
@@ -250,6 +327,19 @@ def oracle(case):
         want = base64.b64encode(hashlib.sha1(key + b'258EAFA5-E914-47DA-95CA-C5AB0DC85B11').digest())
         got = _handshake_impl(case)
         return None if got == 'ok ' + hx(want) else 'handshake-accept-token-not-the-rfc-formula'
+    if k == 'upfr':
+        key = bytes.fromhex(case['key'])
+        want = base64.b64encode(hashlib.sha1(key + b'258EAFA5-E914-47DA-95CA-C5AB0DC85B11').digest())
+        got = _upfr_impl(case)
+        if got[0] != 'ok ' + hx(want):
+            return 'handshake-accept-token-not-the-rfc-formula'
+        for fr, line in zip(case['frames'], got[1:]):
+            want = 'ok fin=%d rsv=%d%d%d op=%d masked=%d mask=%s data=%s tail=-' % (
+                fr['flags'][0], fr['flags'][1], fr['flags'][2], fr['flags'][3], fr['op'], fr['masked'],
+                (fr['mask'] if fr['masked'] else 'None'), hx(payload(fr['data'])))
+            if line != want:
+                return 'frames-sharing-the-upgrade-segment-not-delivered-frame-by-frame'
+        return None
     if k == 'wsloop':
         got = _wsloop_impl(case)
         for fr, line in zip(case['frames'], got):
@@ -327,6 +417,13 @@ def corpus():
     for tls in (0, 1):
         for upg in ('websocket', 'WebSocket'):
             cs.append({'kind': 'hs', 'key': b'dGhlIHNhbXBsZSBub25jZQ=='.hex(), 'tls': tls, 'upg': upg})
+    K = b'dGhlIHNhbXBsZSBub25jZQ=='.hex()
+    # frames sharing the segment of the upgrade request; first header bytes 0d 0a / 0a 0d / 0d 0d (CR, LF look-alikes)
+    cs.append({'kind': 'upfr', 'key': K, 'with_req': 1, 'frames': [fr(1, 1, 'a1b2c3d4', '68656c6c6f'), fr(1, 0, None, '776f726c64')]})
+    cs.append({'kind': 'upfr', 'key': K, 'with_req': 2, 'frames': [fr(0xd, 0, None, '30313233343536373839', (0, 0, 0, 0)), fr(1, 0, None, '61')]})
+    cs.append({'kind': 'upfr', 'key': K, 'with_req': 1, 'frames': [fr(0xa, 0, None, '00' * 13, (0, 0, 0, 0)), fr(2, 1, '0d0a0d0a', '0d0a')]})
+    cs.append({'kind': 'upfr', 'key': K, 'with_req': 2, 'frames': [fr(0xd, 0, None, '0d0a' * 5, (0, 0, 0, 0)), fr(0xd, 0, None, '0d' * 13, (0, 0, 0, 0))]})
+    cs.append({'kind': 'upfr', 'key': K, 'with_req': 0, 'frames': [fr(0xd, 0, None, '30313233343536373839', (0, 0, 0, 0))]})
     cs.append({'kind': 'mask', 'data': '0102030405', 'mask': 'ffeeddcc'})
     cs.append({'kind': 'mask', 'data': '01', 'mask': 'ff'})
     cs.append({'kind': 'mask', 'data': '', 'mask': ''})
@@ -391,6 +488,21 @@ def generate(rng, tier):
     for _ in range(40 if not big else 400):
         key = base64.b64encode(bytes(rng.randrange(256) for _ in range(rng.choice([16, 16, 8, 20])))).hex()
         yield {'kind': 'hs', 'key': key, 'tls': rng.randrange(2), 'upg': rng.choice(['websocket', 'WEBSOCKET', 'Websocket'])}
+    for _ in range(150 if not big else 2000):
+        frames = []
+        for _k in range(rng.choice([1, 2, 3])):
+            masked = rng.randrange(2)
+            crlfish = rng.randrange(3) == 0
+            n = rng.choice([10, 13]) if crlfish else rng.choice([0, 1, 2, 5, 10, 13, 125, 126, 200])
+            if crlfish:
+                masked = 0
+            frames.append({'flags': [0, 0, 0, 0] if crlfish else [rng.randrange(2) for _ in range(4)],
+                           'op': rng.choice([0xd, 0xa]) if crlfish else rng.choice([0, 1, 2, 9, 10, 3, 13, 15]),
+                           'masked': masked,
+                           'mask': bytes(rng.randrange(256) for _ in range(4)).hex() if masked else None,
+                           'data': {'n': n, 'a': rng.choice([13, 10, rng.randrange(256)]), 'b': rng.choice([0, 0, 253, 3])}})
+        key = base64.b64encode(bytes(rng.randrange(256) for _ in range(16))).hex()
+        yield {'kind': 'upfr', 'key': key, 'with_req': rng.randrange(len(frames) + 1), 'frames': frames}
     for _ in range(60 if not big else 600):
         yield {'kind': 'mask', 'data': bytes(rng.randrange(256) for _ in range(rng.randrange(12))).hex(),
                'mask': bytes(rng.randrange(256) for _ in range(rng.choice([0, 1, 3, 4, 4, 4, 5]))).hex()}
@@ -417,6 +529,8 @@ def describe(case):
         return ['wsloop frames=%d' % len(case['frames'])]
     if case['kind'] == 'hs':
         return ['handshake tls=%d' % case['tls']]
+    if case['kind'] == 'upfr':
+        return ['upgrade+frames frames-with-request=%d' % case['with_req']]
     if case['kind'] == 'rt':
         n = len(payload(case['data'])) if 'hex' in case['data'] else case['data']['n']
         b = '0' if n == 0 else '<126' if n < 126 else '<64K' if n < 65536 else '>=64K'
@@ -425,4 +539,4 @@ def describe(case):
 
 
 def nontrivial(case):
-    return in_quantifier(case) or case['kind'] in ('wsloop', 'hs')
+    return in_quantifier(case) or case['kind'] in ('wsloop', 'hs', 'upfr')
